@@ -86,7 +86,14 @@ type c11TCSc struct {
 
 const c11NGateV = 4
 
-var c11Owner = map[string]int{"pa": 0, "g": 0, "pb": 1, "pc": 1, "g2": 1}
+var c11Owner = map[string]int{"pa": 0, "g": 0, "pb": 1, "pc": 1, "g2": 1, "o/pa": 2, "o/pb": 2, "o/*": 2, "tc": 2}
+
+// c11OtherNS: a second namespace with pipelines of the SAME names as the ones
+// requests are routed to; whatever happens there (create / apply / update /
+// delete / Clean of the whole namespace, owned by a third updater, which also
+// polls TrafficController.Status like the status-sync controller does) must
+// not be visible to the requests of the default namespace.
+const c11OtherNS = "other"
 
 func c11GenTC(rng *sim.Rand) *c11TCSc {
 	sc := &c11TCSc{GateV: rng.Intn(c11NGateV)}
@@ -112,7 +119,7 @@ func c11GenTC(rng *sim.Rand) *c11TCSc {
 			op := c11TCOp{Name: name, GapUs: int64(rng.Pick(0, 0, 1, 10, 100, 1000, 5000))}
 			switch name {
 			case "g":
-				op.Op = "applygate"
+				op.Op = rng.PickStr("applygate", "applygate", "updategate")
 				if rng.Bool(0.25) {
 					op.Same = true
 				} else {
@@ -124,9 +131,15 @@ func c11GenTC(rng *sim.Rand) *c11TCSc {
 					exists["g2"] = false
 				} else {
 					op.Op = "applygate"
+					if rng.Bool(0.25) {
+						// UpdateTrafficGate: an error if g2 does not exist
+						op.Op = "updategate"
+					}
 					op.Same = exists["g2"] && rng.Bool(0.3)
 					op.V = rng.Intn(c11NGateV)
-					exists["g2"] = true
+					if op.Op == "applygate" {
+						exists["g2"] = true
+					}
 				}
 			default:
 				nextV++
@@ -156,6 +169,40 @@ func c11GenTC(rng *sim.Rand) *c11TCSc {
 			}
 			sc.Updaters[u].Ops = append(sc.Updaters[u].Ops, op)
 		}
+	}
+	if rng.Bool(0.5) {
+		var u c11TCUpdater
+		for i, n := 0, rng.Range(2, 7); i < n; i++ {
+			op := c11TCOp{GapUs: int64(rng.Pick(0, 0, 1, 10, 100, 1000, 5000))}
+			switch x := rng.Intn(10); {
+			case x < 2:
+				op.Op, op.Name = "status", "tc"
+			case x < 3:
+				op.Op, op.Name = "clean", "o/*"
+				exists["o/pa"], exists["o/pb"] = false, false
+			default:
+				op.Name = rng.PickStr("o/pa", "o/pa", "o/pb")
+				nextV++
+				op.V = nextV
+				switch {
+				case !exists[op.Name]:
+					op.Op = rng.PickStr("create", "apply", "apply", "update", "delete")
+				case rng.Bool(0.3):
+					op.Op = "delete"
+				default:
+					op.Op = rng.PickStr("apply", "update")
+					op.Same = op.Op == "apply" && rng.Bool(0.2)
+				}
+				switch op.Op {
+				case "create", "apply":
+					exists[op.Name] = true
+				case "delete":
+					exists[op.Name] = false
+				}
+			}
+			u.Ops = append(u.Ops, op)
+		}
+		sc.Updaters = append(sc.Updaters, u)
 	}
 	pHold := []float64{0.3, 0.6, 0.9}[rng.Intn(3)]
 	sc.Clients = c11GenReqs(rng, rng.Range(1, 3), rng.Range(4, 18), pHold, false)
@@ -217,8 +264,12 @@ func c11TCFutKind(v int) string {
 	return "Mock"
 }
 
-func c11TCPipeText(name string, v int) string {
-	mark := fmt.Sprintf("%s-v%d", name, v)
+func c11TCPipeText(name string, v int) string { return c11TCPipeTextTag(name, name, v) }
+
+// c11TCPipeTextTag: tag marks answers and lifecycle counters (differs from the
+// name for the pipelines of the other namespace).
+func c11TCPipeTextTag(name, tag string, v int) string {
+	mark := fmt.Sprintf("%s-v%d", tag, v)
 	node := c11M{"filter": "m", "jumpIf": c11M{"mocked": "post"}}
 	fut := c11M{"name": "m", "kind": "Mock", "rules": []c11M{{"match": c11M{"pathPrefix": "/"}, "code": 200, "body": mark}}}
 	switch c11TCFutKind(v) {
@@ -233,9 +284,9 @@ func c11TCPipeText(name string, v int) string {
 	m := c11M{"name": name, "kind": "Pipeline",
 		"flow": []c11M{{"filter": "pre"}, node, {"filter": "post"}},
 		"filters": []c11M{
-			{"name": "pre", "kind": "C11Park", "gen": v, "role": "pre", "tag": name},
+			{"name": "pre", "kind": "C11Park", "gen": v, "role": "pre", "tag": tag},
 			fut,
-			{"name": "post", "kind": "C11Park", "gen": v, "role": "post", "tag": name},
+			{"name": "post", "kind": "C11Park", "gen": v, "role": "post", "tag": tag},
 		}}
 	b, _ := json.Marshal(m)
 	return string(b)
@@ -288,7 +339,7 @@ func c11ExecTC(r *sim.Run, sc *c11TCSc) {
 	for _, c := range sc.Clients {
 		nreq += len(c.Reqs)
 	}
-	if nreq == 0 || sc.GateV < 0 || sc.GateV >= c11NGateV || len(sc.Updaters) > 2 {
+	if nreq == 0 || sc.GateV < 0 || sc.GateV >= c11NGateV || len(sc.Updaters) > 3 {
 		return
 	}
 	pipeNames := map[string]bool{"pa": true, "pb": true, "pc": true}
@@ -306,11 +357,19 @@ func c11ExecTC(r *sim.Run, sc *c11TCSc) {
 			}
 			isGate := op.Name == "g" || op.Name == "g2"
 			switch op.Op {
-			case "create", "apply", "update", "delete":
-				if isGate {
+			case "status":
+				if op.Name != "tc" {
 					return
 				}
-			case "applygate":
+			case "clean":
+				if op.Name != "o/*" {
+					return
+				}
+			case "create", "apply", "update", "delete":
+				if isGate || op.Name == "tc" || op.Name == "o/*" {
+					return
+				}
+			case "applygate", "updategate":
 				if !isGate || op.V >= c11NGateV {
 					return
 				}
@@ -466,7 +525,7 @@ func c11ExecTC(r *sim.Run, sc *c11TCSc) {
 	const ns = "default"
 	var runtimes []*runtime
 	ref := map[string]*c11RefObj{}
-	for _, n := range []string{"pa", "pb", "pc", "g", "g2"} {
+	for _, n := range []string{"pa", "pb", "pc", "g", "g2", "o/pa", "o/pb"} {
 		ref[n] = &c11RefObj{hist: []c11RefState{{}}}
 	}
 	lastEnt := map[string]*supervisor.ObjectEntity{}
@@ -580,9 +639,58 @@ func c11ExecTC(r *sim.Run, sc *c11TCSc) {
 					gap = 0
 				}
 				r.Sleep(time.Duration(gap) * time.Microsecond)
+				if op.Op == "status" || op.Op == "clean" {
+					var pv interface{}
+					var st string
+					var err error
+					anyOther := ref["o/pa"].cur().exists || ref["o/pb"].cur().exists
+					var stamps []*c11RefObj
+					if op.Op == "clean" {
+						for _, n := range []string{"o/pa", "o/pb"} {
+							if ref[n].cur().exists {
+								ref[n].hist = append(ref[n].hist, c11RefState{start: r.Seq()})
+								stamps = append(stamps, ref[n])
+							}
+						}
+					}
+					r.Eventf("u%d %s starts", u, op.Op)
+					func() {
+						defer func() {
+							if p := recover(); p != nil {
+								pv, st = p, c11Stack()
+							}
+						}()
+						if op.Op == "status" {
+							tc.Status()
+							r.Probe("c11.tc.status_polled")
+						} else {
+							err = tc.Clean(c11OtherNS)
+							r.Probe("c11.tc.other_namespace_cleaned")
+						}
+					}()
+					if pv != nil {
+						fail("C11.tc.panic", "TrafficController.%s panicked: %v\n%s", op.Op, pv, st)
+						return
+					}
+					for _, x := range stamps {
+						x.hist[len(x.hist)-1].end = r.Seq()
+					}
+					if op.Op == "clean" && (err != nil) != !anyOther {
+						fail("C11.tc.op-result", "Clean(%s) returned error %v; the namespace had objects: %v", c11OtherNS, err, anyOther)
+						return
+					}
+					opsDone++
+					continue
+				}
 				o := ref[op.Name]
 				cur := o.cur()
 				isGate := op.Name == "g" || op.Name == "g2"
+				opNS, objName, tag := ns, op.Name, op.Name
+				if strings.HasPrefix(op.Name, "o/") {
+					opNS, objName = c11OtherNS, strings.TrimPrefix(op.Name, "o/")
+					tag = "o-" + objName
+					r.Probe("c11.tc.op_on_same_name_in_other_namespace")
+				}
 				if op.Op == "create" && cur.exists {
 					continue // not generated: CreatePipeline on an existing name
 				}
@@ -599,7 +707,7 @@ func c11ExecTC(r *sim.Run, sc *c11TCSc) {
 				case op.Name == "g2":
 					text = c11GateText("g2", 10081, op.V)
 				default:
-					text = c11TCPipeText(op.Name, op.V)
+					text = c11TCPipeTextTag(objName, tag, op.V)
 				}
 				var sp *supervisor.Spec
 				if text != "" {
@@ -616,7 +724,7 @@ func c11ExecTC(r *sim.Run, sc *c11TCSc) {
 					if !same {
 						next = c11RefState{exists: true, v: op.V}
 					}
-				case "update":
+				case "update", "updategate":
 					if cur.exists {
 						if !same {
 							next = c11RefState{exists: true, v: op.V}
@@ -635,7 +743,7 @@ func c11ExecTC(r *sim.Run, sc *c11TCSc) {
 					kindChanged[op.Name] = fmt.Sprintf("%s(v%d)->%s(v%d)", c11TCFutKind(cur.v), cur.v, c11TCFutKind(next.v), next.v)
 					r.Probe("c11.tc.update_changes_kind_of_named_filter/to-" + c11TCFutKind(next.v))
 				}
-				lifeBefore := lifeOf(op.Name)
+				lifeBefore := lifeOf(tag)
 				var instBefore *muxInstance
 				if op.Name == "g" {
 					instBefore = rt.mux.inst.Load().(*muxInstance)
@@ -658,15 +766,18 @@ func c11ExecTC(r *sim.Run, sc *c11TCSc) {
 					}()
 					switch op.Op {
 					case "create":
-						ent, err = tc.CreatePipelineForSpec(ns, sp)
+						ent, err = tc.CreatePipelineForSpec(opNS, sp)
 					case "apply":
-						ent, err = tc.ApplyPipelineForSpec(ns, sp)
+						ent, err = tc.ApplyPipelineForSpec(opNS, sp)
 					case "update":
-						ent, err = tc.UpdatePipelineForSpec(ns, sp)
+						ent, err = tc.UpdatePipelineForSpec(opNS, sp)
 					case "delete":
-						err = tc.DeletePipeline(ns, op.Name)
+						err = tc.DeletePipeline(opNS, objName)
 					case "applygate":
 						ent, err = tc.ApplyTrafficGateForSpec(ns, sp)
+					case "updategate":
+						ent, err = tc.UpdateTrafficGateForSpec(ns, sp)
+						r.Probe("c11.tc.update_traffic_gate_called")
 					case "deletegate":
 						err = tc.DeleteTrafficGate(ns, op.Name)
 					}
@@ -692,7 +803,7 @@ func c11ExecTC(r *sim.Run, sc *c11TCSc) {
 					}
 				}
 				// gate g: the update is applied once the runtime has stored the new instance
-				if op.Name == "g" && changed {
+				if op.Name == "g" && (changed || (op.Op == "updategate" && err == nil)) {
 					if !waitApplied(sp) {
 						fail("C11.tc.update-never-applied", "ApplyTrafficGate(g, version %d) returned, but the runtime never loaded the spec", op.V)
 						return
@@ -711,7 +822,7 @@ func c11ExecTC(r *sim.Run, sc *c11TCSc) {
 						fail("C11.tc.noop-apply-lifecycle/"+kindName, "%s of %s with a spec equal to the one in effect returned a different entity (generation %d instead of %d)", op.Op, op.Name, ent.Generation(), lastEnt[op.Name].Generation())
 						return
 					}
-					if lb := lifeOf(op.Name); lb != lifeBefore {
+					if lb := lifeOf(tag); lb != lifeBefore {
 						fail("C11.tc.noop-apply-lifecycle/"+kindName, "%s of %s with a spec equal to the one in effect ran lifecycle calls on its filters: before %s, after %s", op.Op, op.Name, lifeBefore, lb)
 						return
 					}
@@ -899,6 +1010,24 @@ func c11ExecTC(r *sim.Run, sc *c11TCSc) {
 		})
 	}
 	r.WaitTasks()
+	if !r.Violated() && !r.Aborted() {
+		// final state: every pipeline is there / gone as the reference says, in both namespaces
+		for _, n := range []string{"pa", "pb", "pc", "o/pa", "o/pb"} {
+			qns, qn := ns, n
+			if strings.HasPrefix(n, "o/") {
+				qns, qn = c11OtherNS, strings.TrimPrefix(n, "o/")
+			}
+			_, found := tc.GetPipeline(qns, qn)
+			if want := ref[n].cur().exists; found != want {
+				class := "C11.tc.op-result"
+				if want {
+					class = "C11.tc.untouched-object-unavailable"
+				}
+				fail(class, "at the end of the run GetPipeline(%s, %s) found=%v, the reference says exists=%v (history %+v)", qns, qn, found, want, ref[n].hist)
+				break
+			}
+		}
+	}
 	cleanup()
 	if interesting > 0 {
 		r.Nontrivial()
